@@ -441,7 +441,7 @@ func checkUVPoint(c uvCase) *vk.Failure {
 }
 
 func TestUVPoint(t *testing.T) {
-	vk.Run(t, "uv-point", vk.Opts{Quick: 12000, Thorough: 300000, NoCrumb: true}, func(t *rapid.T) uvCase {
+	vk.Run(t, "uv-point", vk.Opts{Quick: 24000, Thorough: 400000, NoCrumb: true}, func(t *rapid.T) uvCase {
 		return drawUV(t, nil)
 	}, checkUVPoint)
 }
